@@ -345,6 +345,8 @@ impl CoreInner {
 		// Step 4: Apply changeset atomically
 		// Lock order: level_manifest → immutable_memtables
 		let mut manifest = self.level_manifest.write()?;
+		#[cfg(feature = "verif")]
+		crate::verif::point("flush.install.after_manifest_lock");
 		let mut memtable_lock = self.immutable_memtables.write()?;
 
 		let rollback = manifest.apply_changeset(&changeset)?;
